@@ -751,3 +751,35 @@ def c08_replay(chk, text):
     ms = out_field(s, "term_ms")
     if t.get("linger") and ms is not None and int(ms) > 1000:
         chk.violation("C08: end-of-file on the captured streams arrived only after %s ms [%s]" % (ms, describe(t)), tpl_to_json(t))
+
+
+def c08_threads(chk, tier):
+    """two threads launching concurrently under a fixed schedule: thread A (stdin and stdout piped) is held right
+    before its fork while thread B performs a complete launch; B's child must not hold A's pipe ends (F9)"""
+    scns = []
+    for i in range(3 if tier == "quick" else 20):
+        scns.append({"id": "c08-threads-%d" % i, "spec": ["kind threads", "schedule a-in-flight",
+                     "stubcfg @a readeof;@a write 1 5;@a exit 0;@b sleep 700;@b exit 0", "path " + e2.hexs(b"/usr/bin:/bin")], "timeout": 20})
+    e2.run_scenarios(scns, "C08thr")
+    for s in scns:
+        replay = "threads a-in-flight"
+        if s.get("timed_out") or s.get("rc") != 0:
+            chk.violation("C08: [threads a-in-flight] the scenario did not complete", replay)
+            continue
+        reps = {e2.parse_report(t).get("argv", [b"", b"?"])[1]: e2.parse_report(t) for t in s["reps"].values()}
+        b = reps.get(b"b")
+        a = reps.get(b"a")
+        if a is None or b is None:
+            chk.violation("C08: [threads a-in-flight] a child did not report", replay)
+            continue
+        a_pipes = {e["ino"] for k, e in a["fds"].items() if k in (0, 1) and e["target"].startswith("pipe:")}
+        extra = [k for k, e in b["fds"].items() if k > 2 and e["ino"] in a_pipes]
+        other = [k for k, e in b["fds"].items() if k > 2 and e["ino"] not in a_pipes]
+        eof = out_field(s, "thread a eof_ms")
+        if extra:
+            chk.violation("C08: [threads a-in-flight] the child of thread B holds descriptors %s, ends of the pipes of a launch in flight on another thread; "
+                          "end-of-file on A's output arrived after %s ms (B's child lives 700 ms)" % (extra, eof), replay)
+        if other:
+            chk.violation("C08: [threads a-in-flight] the child of thread B holds descriptors %s beyond 0,1,2: %s" % (other, [b["fds"][k]["target"] for k in other]), replay)
+    chk.cov["evaluations"] = chk.cov.get("evaluations", 0) + len(scns)
+    chk.cov["thread_scenarios"] = len(scns)
